@@ -39,7 +39,7 @@ CLAIMED = {
     "C08": dict(text="InotifyBuffer._group_events: region contract per batch event (append single / upgrade the first matching single MOVED_FROM in place / append pair with the first match pulled from the delay queue / single when nothing matches; every other position untouched; delay queue consulted at most once) and all pairs (moved_from, moved_to, one cookie); InotifyBuffer.run: every item except a single IN_IGNORED put exactly once in order, delayed iff unmatched MOVED_FROM, loop ends exactly on root IGNORED/DELETE_SELF; composed with the re-verified DelayedQueue put/get/remove contracts (C17).",
                 note="No-loss/no-duplication over a batch is the induction over the per-event region contract. Cross-batch pairing and timing clauses are the composition with C17 (rely/guarantee), not re-proved end to end. E8 cookies.", ref="4/C08"),
     "C02": dict(text="PARTIAL. Watch-map contracts of the Inotify class against the meaning of each native record: _add_dir_watch watches the root and (recursive) every directory found under it, only the root otherwise; per record of read_events (region contract): IN_CREATE|ISDIR => new directory watched or the kernel refused; rename of a watched directory => its entry and exactly the entries below it re-keyed by prefix substitution (6-clause loop invariant, string facts proved as SMT-LIB string lemmas), same descriptors, both maps, keys outside both trees untouched; IN_IGNORED => pruned; watches added only by a recursive instance.",
-                note="NOT decided: that the event view equals the disk at quiescence (kernel, pacing condition). E8 kernel contract, E1, C20. Known finding (recorded, not repaired): a directory moved in from outside is never watched (the TODO in read_events).", ref="4/C02"),
+                note="NOT decided: that the event view equals the disk at quiescence (kernel, pacing condition). E8 kernel contract, E1, C20. A directory arriving by IN_MOVED_TO without a known watched source (moved in, or renamed right after creation) was never watched on the original tree: repaired by fix: 26501cd.", ref="4/C02"),
     "C07": dict(text="PARTIAL. Exception-freedom of every library thread body: one obligation per subscript/pop/del/unpack/None-attribute in Inotify.read_events (incl. _recursive_simulate and the re-key loop), InotifyBuffer._group_events/run, InotifyEmitter.queue_events, PollingEmitter.queue_events, DirectorySnapshot.walk/__init__, with inotify_add_watch / stat / listdir failing at every call; invariant 'every live kernel descriptor has a path entry'; root deletion => exactly one DirDeletedEvent(root) + stop on both back ends, reader loop ends.",
                 note="NOT decided: 'later changes are reported' (C02 + liveness). E8 kernel contract (IN_IGNORED last for its descriptor; descriptors may be re-issued). Two KeyErrors found on the original tree were repaired by fix: commits.", ref="4/C07"),
     "C06": dict(text="PARTIAL: NECESSARY CONDITIONS ONLY - termination itself is not proved. W1 every stop path sets the flag and then performs the wake-up of each blocking wait, without raising before (BaseThread.stop, EventDispatcher.stop/__init__ (unbounded queue + sentinel), BaseObserver.on_thread_stop, InotifyEmitter/InotifyBuffer.on_thread_stop, InotifyBuffer.close, Inotify.close, DelayedQueue.close, polling sleeps on the stop flag, debouncer stop, ProcessWatcher timed waits); W2 each run() leaves its loop once the flag is set and its blocking call returned; W3 wait-predicate discipline at both condition-variable waits; W4 lock levels checked on the lock-acquisition graph extracted from the real AST + join-under-lock rule.",
